@@ -97,7 +97,7 @@ def run_property(prop: str, root: str, tier: str, seed: int, evidence_dir=None, 
             continue
         if only_key is not None and o.key() != only_key:
             continue
-        if o.key() in known:
+        if o.key() in known or _moved_known(o, known):
             known_hits.append(o)
         else:
             new_viol.append(o)
@@ -110,6 +110,29 @@ def run_property(prop: str, root: str, tier: str, seed: int, evidence_dir=None, 
     write_evidence(prop, tier, seed, obs, known_hits, new_viol, wall,
                    getattr(mod, 'EXPLANATION', ''), getattr(mod, 'ASSUMPTIONS', []), extra, evidence_dir)
     return obs, known_hits, new_viol, wall
+
+
+def _is_new_function(q: str) -> bool:
+    """q is a module-level function or a method of a class that does not exist in the pinned tree (contracts/functions.json)"""
+    from .inline import frozen_functions
+    fr = frozen_functions()
+    parts = q.split('.')
+    for i in range(len(parts) - 1, 0, -1):
+        mod = '.'.join(parts[:i])
+        if mod in fr:
+            rest = parts[i:]
+            if len(rest) == 1:
+                return rest[0] not in fr[mod]
+            return rest[0] not in fr.get('<classes>', {}).get(mod, []) and rest[0] not in fr[mod]
+    return False
+
+
+def _moved_known(o, known) -> bool:
+    """A recorded finding whose construct now sits in a NEW private helper / class (a refactoring moved the statement): still the
+    same finding, identified by property, rule and construct; anything in a function of the pinned tree is matched exactly."""
+    if not _is_new_function(o.func):
+        return False
+    return any(k[0] == o.prop and k[1] == o.rule and k[3] == o.construct for k in known)
 
 
 def main(argv=None):
